@@ -85,7 +85,12 @@ Slide == /\ Mode = "euler" /\ steps < MaxSteps /\ Mod24(pt[2]) = 0 /\ pt[3] # 0
 Translate(v) == /\ Mode = "composite" /\ steps < MaxSteps
                 /\ sys' = Plus(sys, v) /\ steps' = steps + 1 /\ UNCHANGED pt
 
+\* turning a composite about its own centroid leaves the centroid (the abstract state) where it is; the
+\* replay turns the *result* of a turn again: the second turn is about the same centroid
+Turn == /\ Mode = "composite" /\ steps < MaxSteps /\ steps' = steps + 1 /\ UNCHANGED <<pt, sys>>
+
 Next == \/ \E to \in Systems : Convert(to)
+        \/ Turn
         \/ \E axis \in {1, 2, 3}, d \in {-24, 24} : AddTurn(axis, d)
         \/ Slide
         \/ \E v \in Lattice : Translate(v)
@@ -101,5 +106,5 @@ CompositeView == <<pt, sys>>
 PointNeverChanges == [][Mode = "convert" => pt' = pt]_vars
 RotationNeverChanges == [][(Mode = "euler") => (EulerNF(pt') = EulerNF(pt))]_vars
 TranslationsCompose == [][(Mode = "composite") =>
-                             (\E v \in Lattice : sys' = Plus(sys, v))]_vars
+                             (sys' = sys \/ \E v \in Lattice : sys' = Plus(sys, v))]_vars     \* a turn or a shift
 =============================================================================
